@@ -121,57 +121,66 @@ def unproxy(obj):
     return object.__getattribute__(obj, "_target") if isinstance(obj, Proxy) else obj
 
 
-def _sh_extract(target, identifier):
-    branch = target.extract_from_global_state(identifier)
+def _first(args, kwargs, name, default=None):
+    if args:
+        return args[0]
+    return kwargs.get(name, default)
+
+
+def _sh_extract(target, *args, **kwargs):
+    branch = target.extract_from_global_state(*args, **kwargs)
     for h in HUB.h_on_extract:
-        h(target, identifier, branch)
+        h(target, _first(args, kwargs, "identifier"), branch)
     return branch
 
 
-def _sh_extract_active(target):
-    result = target.extract_active_global_state()
+def _sh_extract_active(target, *args, **kwargs):
+    result = target.extract_active_global_state(*args, **kwargs)
     for h in HUB.h_on_extract_active:
         h(target, result)
     return result
 
 
-def _sh_extract_global(target):
-    result = target.extract_global_state()
+def _sh_extract_global(target, *args, **kwargs):
+    result = target.extract_global_state(*args, **kwargs)
     for h in HUB.h_on_extract_global:
         h(target, result)
     return result
 
 
-def _sh_insert(target, out_state):
+def _sh_insert(target, *args, **kwargs):
+    out_state = _first(args, kwargs, "extracted_global_state")
     for h in HUB.h_on_insert_begin:
         h(target, out_state)
-    target.insert_into_global_state(out_state)
+    target.insert_into_global_state(*args, **kwargs)
     for h in HUB.h_on_insert_end:
         h(target, out_state)
 
 
-def _sh_initialize(target, nodes):
-    result = target.initialize(nodes)
+def _sh_initialize(target, *args, **kwargs):
+    result = target.initialize(*args, **kwargs)
     for h in HUB.h_on_initialize_state:
-        h(target, nodes)
+        h(target, _first(args, kwargs, "global_physical_state"))
     return result
 
 
-def _sc_push(target, time, event_handler):
-    target.push_event(time, event_handler)
+def _sc_push(target, *args, **kwargs):
+    target.push_event(*args, **kwargs)
+    time = _first(args, kwargs, "time")
+    event_handler = args[1] if len(args) > 1 else kwargs.get("event_handler")
     for h in HUB.h_on_push:
         h(target, time, event_handler)
 
 
-def _sc_trash(target, event_handler):
-    target.trash_event(event_handler)
+def _sc_trash(target, *args, **kwargs):
+    target.trash_event(*args, **kwargs)
     for h in HUB.h_on_trash:
-        h(target, event_handler)
+        h(target, _first(args, kwargs, "event_handler"))
 
 
-def _sc_get(target):
+def _sc_get(target, *args, **kwargs):
     try:
-        event_handler = target.get_succeeding_event()
+        event_handler = target.get_succeeding_event(*args, **kwargs)
     except Exception as exc:
         for h in HUB.h_on_get_failed:
             h(target, exc)
@@ -181,45 +190,49 @@ def _sc_get(target):
     return event_handler
 
 
-def _ac_to_run(target, active_state, preceding):
-    result = target.get_event_handlers_to_run(active_state, preceding)
+def _ac_to_run(target, *args, **kwargs):
+    result = target.get_event_handlers_to_run(*args, **kwargs)
+    active_state = _first(args, kwargs, "extracted_active_global_state")
+    preceding = args[1] if len(args) > 1 else kwargs.get("preceding_event_handler")
     for h in HUB.h_on_to_run:
         h(target, active_state, preceding, result)
     return result
 
 
-def _ac_trashable(target, preceding):
-    result = target.get_trashable_events(preceding)
+def _ac_trashable(target, *args, **kwargs):
+    result = target.get_trashable_events(*args, **kwargs)
     for h in HUB.h_on_trashable:
-        h(target, preceding, result)
+        h(target, _first(args, kwargs, "preceding_event_handler"), result)
     return result
 
 
-def _ac_info(target, event_handler, identifier):
-    result = target.get_info_internal_state(event_handler, identifier)
+def _ac_info(target, *args, **kwargs):
+    result = target.get_info_internal_state(*args, **kwargs)
+    event_handler = _first(args, kwargs, "event_handler_asking")
+    identifier = args[1] if len(args) > 1 else kwargs.get("identifier_in_internal_state")
     for h in HUB.h_on_info_internal_state:
         h(target, event_handler, identifier, result)
     return result
 
 
-def _io_read(target):
-    result = target.read()
+def _io_read(target, *args, **kwargs):
+    result = target.read(*args, **kwargs)
     for h in HUB.h_on_read:
         h(target, result)
     return result
 
 
-def _io_write(target, output_handler, *args):
+def _io_write(target, output_handler, *args, **kwargs):
     for h in HUB.h_on_write:
         h(target, output_handler, args)
-    result = target.write(output_handler, *args)
+    result = target.write(output_handler, *args, **kwargs)
     for h in HUB.h_on_write_end:
         h(target, output_handler, args)
     return result
 
 
-def _io_post_run(target):
-    result = target.post_run()
+def _io_post_run(target, *args, **kwargs):
+    result = target.post_run(*args, **kwargs)
     for h in HUB.h_on_post_run:
         h(target)
     return result
